@@ -205,6 +205,15 @@ def explore_case(modname, case, limits):
         except Exception as e:  # escaped the harness: harness or engine defect, never "holds"
             outcome = 'error'
             res['errors'].append('%s: %s\n%s' % (type(e).__name__, e, traceback.format_exc()[-2500:]))
+            # if the same exception escapes on the real tree with this path's inputs, the tree under test
+            # (not the engine) raises it: reported as a violation with a replay instead of a harness error
+            try:
+                wm = symx.extract_model(ctx)
+            except BaseException:
+                wm = None
+            if wm is not None:
+                env.candidates.append({'key': '%s/uncaught-exception/%s/%s' % (getattr(mod, 'PROPERTY', '?'), case['fn'], type(e).__name__),
+                                       'model': wm, 'detail': repr(e)[:200]})
         finally:
             symx.set_current(None)
         res['paths'] += 1
@@ -273,6 +282,8 @@ def replay_candidate(cand):
     except Exception as e:
         out['error'] = 'exception %s: %s' % (type(e).__name__, e)
         out['traceback'] = traceback.format_exc()[-2000:]
+        if '/uncaught-exception/' in cand['key'] and cand['key'].endswith('/' + type(e).__name__):
+            env.reproduced.append({'key': cand['key'], 'detail': repr(e)[:200]})
     out['keys'] = [r['key'] for r in env.reproduced]
     out['details'] = [r['detail'] for r in env.reproduced]
     out['reproduced'] = cand['key'] in out['keys']
